@@ -344,4 +344,86 @@ theorem paramsOf_run {Out : Type} (sites : List MemoSite) (F : Nat → (Read →
     simp only [runM]
     exact ⟨this.1.trans h1, this.2⟩
 
+/-! ### results kept from a caller-owned table -/
+
+section
+variable {Out : Type} (kind : ArgKeyKind) (f : List Val → Out)
+
+/-- every kept result is the body's value for the content that is its key -/
+def TInv (st : TState Out) : Prop :=
+  ∀ k out, (k, out) ∈ st.store → ∃ c, k = (none, some c) ∧ out = f c
+
+theorem tinv_init : TInv f (initT : TState Out) := by
+  intro k out h; simp [initT] at h
+
+theorem tkey_content (hk : kind ≠ .identity) (t : Nat) (c : List Val) (k : TKey)
+    (h : tkey kind t c = some k) : k = (none, some c) := by
+  cases kind with
+  | none => simp [tkey] at h
+  | identity => exact absurd rfl hk
+  | content => simp only [tkey, Option.some.injEq] at h; exact h.symm
+
+theorem tinv_step (hk : kind ≠ .identity) (st : TState Out) (op : TOp) (hI : TInv f st) :
+    TInv f (stepT kind f st op).1 := by
+  cases op with
+  | newTable c => simpa [stepT, TInv] using hI
+  | mutate t c => simpa [stepT, TInv] using hI
+  | drop j =>
+    intro k out h
+    exact hI k out (List.mem_of_mem_eraseIdx h)
+  | call t =>
+    simp only [stepT]
+    split
+    · exact hI
+    · rename_i c hc
+      split
+      · exact hI
+      · rename_i k hkey
+        split
+        · exact hI
+        · intro k' out h
+          simp only [List.mem_cons, Prod.mk.injEq] at h
+          rcases h with ⟨h1, h2⟩ | h
+          · subst h1 h2
+            exact ⟨c, tkey_content kind hk t c _ hkey, rfl⟩
+          · exact hI k' out h
+
+theorem tinv_run (hk : kind ≠ .identity) : ∀ (hist : List TOp) (st : TState Out),
+    TInv f st → TInv f (runT kind f st hist) := by
+  intro hist
+  induction hist with
+  | nil => intro st h; exact h
+  | cons op ops ih => intro st h; exact ih _ (tinv_step kind f hk st op h)
+
+/-- with the invariant (and a store not keyed on identity), a call returns the body's value
+    for the table's current content -/
+theorem tcall_sound (hk : kind ≠ .identity) (st : TState Out) (hI : TInv f st) (t : Nat)
+    (c : List Val) (ht : st.tables[t]? = some c) :
+    (stepT kind f st (.call t)).2 = some (f c) := by
+  simp only [stepT, ht]
+  split
+  · rfl
+  · rename_i k hkey
+    split
+    · rename_i out hl
+      obtain ⟨c', hc', hout⟩ := hI k out (lookup_mem _ _ _ hl)
+      have := tkey_content kind hk t c k hkey
+      rw [this] at hc'
+      simp only [Prod.mk.injEq, Option.some.injEq, true_and] at hc'
+      subst hc'
+      simp [hout]
+    · rfl
+
+/-- a call never changes the caller's tables -/
+theorem tcall_keeps_tables (st : TState Out) (t : Nat) :
+    (stepT kind f st (.call t)).1.tables = st.tables := by
+  simp only [stepT]
+  split
+  · rfl
+  · split
+    · rfl
+    · split <;> rfl
+
+end
+
 end OQuPyVerif.Aliasing
